@@ -404,6 +404,13 @@ def history (cache : Cache) : List (Req × Bool × List Act) → List (St × Byt
     let (b, cache') := renderCached cache s
     (s, b) :: history cache' t
 
+/-- two responses written at the same time on two connections (A stalls inside its head write, B is
+    written completely, A resumes): the code shares only process-wide caches between them — the
+    Status-Line cache (A's statusLine() call comes first) and bfe_http's headerSorterCache, whose
+    sorters carry no content from one WriteSubset to the next — so the model is the two exchanges
+    computed independently. -/
+def pairRun (a b : Req × Bool × List Act) : List (St × Bytes) := history [] [a, b]
+
 /-! ## SPEC: how an RFC 7230 recipient delimits the response -/
 
 inductive Framing where
@@ -582,6 +589,15 @@ def acceptedBody : List Act → List Nat → Bytes
   | .write d :: t, r :: rs => (if r == 0 then d else []) ++ acceptedBody t rs
   | .write _ :: t, [] => acceptedBody t []
   | _ :: t, rs => acceptedBody t rs
+
+/-- SPEC for concurrent responses: a connection's response carries no end-to-end header line that only
+    the OTHER response's handler set -/
+def crossHeader (isHead : Bool) (own other : List Act) (out : Bytes) : Bool :=
+  match rfcResponse isHead out with
+  | some p =>
+    ((expectedEndToEnd other).filter (fun kv => !(expectedEndToEnd own).contains kv)).any
+      (fun kv => p.lines.contains kv)
+  | none => false
 
 def statusClass (isHead : Bool) (st : Nat) : String :=
   if st == 204 then "204" else if st == 304 then "304" else if st < 200 then "1xx"
